@@ -8,11 +8,13 @@ import CifModel.Model.Fill
 
     parse <dia 1|2> <max_frame_depth> <line_folding_modifier> <text_prefixing_modifier> <extra_ws hex|-> <extra_eol hex|->
           <not_utf8 0|1> <policy> <target n|e|p> <hex document> [pre <cif tokens …>] [| annotation …]
-      ↦ ps rc=<return value> n=<callback invocations> log=<code>:<line>,…|- ops=<b>,<f>,<s>,<l>,<p>,<r> seq=<letters|-> sto=<…> cif=<canonical dump>|~
+      ↦ ps rc=<return value> n=<callback invocations> log=<code>:<line>,…|- ops=<b>,<f>,<s>,<l>,<p>,<r> seq=<call,call,…|-> sto=<…> cif=<canonical dump>|~
 
   `ops` = the numbers of successful store calls the instrumented parser (Model/ParserTrace.lean) records: blocks created, save
   frames created, cif_container_set_value, cif_container_create_loop, cif_loop_add_packet, cif_container_prune — the executor
-  counts the same calls of the real parser; `seq` = the same calls in order of occurrence, one letter each (b f s l p r).
+  counts the same calls of the real parser; `seq` = the same calls in order of occurrence: a letter
+  (b f s l p r) and a digest of the name argument (length of the block / frame code or data name in UTF-16 units, number of names
+  of the loop).
   `sto` (model side only; fresh target): the trace translated into a history of the STORE model (Model/ParserStoreOps.storeOps) and
   run through `Store.step` from a new CIF: `ok` = every call returned CIF_OK and the store then shows (`Store.abs`) exactly the CIF
   the parser model built (same enumeration orders); `ord` = the same content in another order; `BAD…` = the composition of the
@@ -93,7 +95,9 @@ def answer (args : List String) : Option String :=
     let tr := storeTrace o policy initial units
     let cnt (p : SOp → Bool) : Nat := (tr.filter p).length
     let ops := s!"{cnt (fun | .mkBlock .. => true | _ => false)},{cnt (fun | .mkFrame .. => true | _ => false)},{cnt (fun | .setVal .. => true | _ => false)},{cnt (fun | .mkLoop .. => true | _ => false)},{cnt (fun | .addPkt .. => true | _ => false)},{cnt (fun | .prune .. => true | _ => false)}"
-    let seq := String.ofList (tr.map fun | .mkBlock .. => 'b' | .mkFrame .. => 'f' | .setVal .. => 's' | .mkLoop .. => 'l' | .addPkt .. => 'p' | .prune .. => 'r')
+    let seq := ",".intercalate (tr.map fun
+      | .mkBlock code _ => s!"b{code.length}" | .mkFrame _ code _ => s!"f{code.length}" | .setVal _ n _ => s!"s{n.length}"
+      | .mkLoop _ names => s!"l{names.length}" | .addPkt .. => "p" | .prune .. => "r")
     let sto : String :=
       if !(tr.all fun op => op.values.all numbFree) then "BADnumb" else
       if tgt == "n" then "skip" else
